@@ -89,7 +89,7 @@ func checkAuth(c *authCase) string {
 // whether producing E' needed the key (then E' is ineligible by rule instead).
 func mutateAuth(t *rapid.T, w *World, e Entry, signer Actor, txs []Tx, h uint32, minute int, st *Stats) (Entry, string) {
 	m := e.Clone()
-	kind := rapid.IntRange(0, 13).Draw(t, "authKind")
+	kind := rapid.IntRange(0, 15).Draw(t, "authKind")
 	flip := func(b []byte, label string) (int, bool) {
 		if len(b) == 0 {
 			return 0, false
@@ -160,6 +160,27 @@ func mutateAuth(t *rapid.T, w *World, e Entry, signer Actor, txs []Tx, h uint32,
 			off = -off
 		}
 		return FATEntry(h, minute, off, signer, txs), "salt-outside-window(with key)"
+	case 14, 15: // a batch signed by somebody else's key only, one of whose transactions spends from the owner
+		att := w.Actors[(signer.ID+3)%len(w.Actors)]
+		own := Tx{From: att.FA(), Asset: txs[0].Asset, Amt: 0, Outs: []Xfer{{To: att.FA(), Amt: 0}}}
+		steal := Tx{From: signer.FA(), Asset: txs[0].Asset, Amt: txs[0].Amt, Outs: []Xfer{{To: att.FA(), Amt: txs[0].Amt}}}
+		var batch []Tx
+		where := rapid.IntRange(0, 2).Draw(t, "foreignPos")
+		switch where {
+		case 0:
+			batch = []Tx{own, steal}
+		case 1:
+			batch = []Tx{steal, own}
+		default:
+			batch = []Tx{own, steal, own}
+		}
+		m := FATEntry(h, minute, 0, att, batch)
+		if kind == 15 {
+			// the signer's pair repeated, as if both inputs had signed
+			m.ExtIDs = append(m.ExtIDs, m.ExtIDs[1], m.ExtIDs[2])
+			return m, "foreign-input-pair-repeated"
+		}
+		return m, []string{"foreign-input-last", "foreign-input-first", "foreign-input-middle"}[where]
 	case 12: // content re-serialised differently (whitespace) keeping the old signature
 		m.Content = append([]byte(" "), m.Content...)
 		return m, "content-respaced"
@@ -285,6 +306,11 @@ func refValidate(e Entry, h uint32, rcde uint32) error {
 	if err != nil {
 		return err
 	}
+	for _, tx := range txs {
+		if tx.From != txs[0].From {
+			return fmt.Errorf("more than one input address in a batch")
+		}
+	}
 	return ValidFAT103(e, TXChainID, EntryTime(h, e.Minute), txs[0].From, h > rcde)
 }
 
@@ -310,6 +336,12 @@ func TestC05(t *testing.T) {
 				for j := range txs {
 					txs[j].From = a.FA()
 				}
+				foreign := false
+				if rapid.IntRange(0, 3).Draw(rt, "foreign") == 0 {
+					// one transaction spends from an address whose key does not sign
+					txs[rapid.IntRange(0, len(txs)-1).Draw(rt, "foreignIdx")].From = NewActor(7, false).FA()
+					foreign = true
+				}
 				off := int64(0)
 				switch rapid.IntRange(0, 4).Draw(rt, "saltK") {
 				case 0:
@@ -321,7 +353,9 @@ func TestC05(t *testing.T) {
 				}
 				e := FATEntry(h, rapid.IntRange(1, 10).Draw(rt, "minute"), off, a, txs)
 				label := "valid-build"
-				if rapid.Bool().Draw(rt, "mutate") {
+				if foreign {
+					label = "foreign-input"
+				} else if rapid.Bool().Draw(rt, "mutate") {
 					e = MutateEntry(rt, e, "m")
 					label = "mutated"
 				}
